@@ -13,16 +13,28 @@ import subprocess
 import sys
 
 HERE = os.path.dirname(os.path.dirname(os.path.abspath(__file__)))
+HARVEST = False
+NO_REPLAYS = True      # the saved regression replays are switched off: the table shows what the generated search finds on its own
 
 
 def run(item):
     pid, kind, path, tier = item
     env = dict(os.environ, MUT_TAIL="400")
+    if NO_REPLAYS:
+        env["VERIF_NO_REPLAYS"] = "1"
     p = subprocess.run([os.path.join(HERE, "tools", "mutant.sh"), path, pid, "--tier", tier], stdout=subprocess.PIPE, stderr=subprocess.STDOUT, text=True, env=env)
     out = p.stdout
     m = re.search(r"mutant rc=(\d+)", out)
     rc = int(m.group(1)) if m else -1
     keys = re.findall(r"failing key: (.*)", out)
+    # keep one shrunk counter-example per seeded change as a regression replay (it passes on the unchanged tree; checked by every later run)
+    if kind == "seeded" and rc == 1 and HARVEST:
+        m2 = re.search(r"VIOLATION property=\S+ replay=(out/replays/\S+\.json)", out)
+        dst = os.path.join(HERE, "replays", pid, "seeded_%s.json" % os.path.basename(os.path.dirname(path)))
+        if m2 and not os.path.exists(dst) and os.path.exists(os.path.join(HERE, m2.group(1))):
+            os.makedirs(os.path.dirname(dst), exist_ok=True)
+            import shutil
+            shutil.copy(os.path.join(HERE, m2.group(1)), dst)
     return pid, kind, path, rc, keys
 
 
@@ -32,7 +44,10 @@ def main():
     ap.add_argument("--only", default="")
     ap.add_argument("--jobs", type=int, default=3)
     ap.add_argument("--out", default=os.path.join(HERE, "SENSITIVITY.md"))
+    ap.add_argument("--harvest", action="store_true", help="copy one counter-example per caught seeded change into replays/<ID>/seeded_<name>.json")
     a = ap.parse_args()
+    global HARVEST
+    HARVEST = a.harvest
     only = set(x for x in a.only.split(",") if x)
     items = []
     for d in sorted(glob.glob(os.path.join(HERE, "mutants", "C*"))):
@@ -58,6 +73,7 @@ def main():
     if not only:
         with open(a.out, "w") as f:
             f.write("# Sensitivity runs (%s tier)\n\nEvery kept change applied to a scratch copy of /repo (tools/mutant.sh), then `./vcheck <ID> --tier %s` against it.\n"
+                    "The saved regression replays are switched off for these runs (VERIF_NO_REPLAYS=1): the table shows what the generated search finds on its own at VERIF_SEED=1.\n"
                     "`own` = written while building the check; `seeded` = produced by an independent agent that saw only the property text (seeded/<ID>/meta.json says what it needs to manifest).\n\n"
                     "| property | origin | change | caught | first failing keys |\n|---|---|---|---|---|\n" % (a.tier, a.tier))
             for pid, kind, path, rc, keys in rows:
